@@ -23,6 +23,7 @@ def sh(cmd, cwd=None, env=None, timeout=1800):
 
 
 def verify(d):
+    d = os.path.abspath(d)
     patch = os.path.join(d, "patch.diff")
     demo = os.path.join(d, "demo.py")
     wt = tempfile.mkdtemp(prefix="seedwt_", dir="/tmp")
@@ -59,10 +60,13 @@ def verify(d):
 
 
 def detect(d, props):
+    d = os.path.abspath(d)
     patch = os.path.join(d, "patch.diff")
     rc, out = sh(f"git -C {REPO} status --short")
     assert out.strip() == "", "repo not clean: " + out
     res = {}
+    bak = tempfile.mkdtemp(prefix="evbak_", dir="/verif/.work")
+    sh(f"cp -a /verif/evidence/. {bak}/")
     try:
         rc, out = sh(f"git -C {REPO} apply {patch}")
         assert rc == 0, out
@@ -74,13 +78,58 @@ def detect(d, props):
                       "summary": lines[-1] if lines else out[-300:]}
             print(p, res[p])
     finally:
+        sh(f"git -C {REPO} apply -R {patch}")
         sh(f"git -C {REPO} checkout -- .")
-        sh("rm -f /verif/replays/*.json")
+        rc, out = sh(f"git -C {REPO} status --short")
+        assert out.strip() == "", "repo not clean after undo: " + out
+        sh(f"cp -a {bak}/. /verif/evidence/")
+        shutil.rmtree(bak, ignore_errors=True)
     json.dump(res, open(os.path.join(d, "detect.json"), "w"), indent=1)
     return res
 
 
+def sandbox(d, props):
+    """Like detect, but on private copies (a scratch worktree of /repo with the patch and a copy of /verif),
+    so several can run at once and /repo is never touched.  Used while strengthening checks; the recorded
+    detect.json comes from `detect`."""
+    d = os.path.abspath(d)
+    patch = os.path.join(d, "patch.diff")
+    base = tempfile.mkdtemp(prefix="sbx_", dir="/tmp")
+    wt, vc = os.path.join(base, "repo"), os.path.join(base, "verif")
+    res = {}
+    try:
+        rc, out = sh(f"git -C {REPO} worktree add -q --detach {wt} HEAD")
+        assert rc == 0, out
+        rc, out = sh(f"git -C {wt} apply {patch}")
+        assert rc == 0, out
+        sh(f"rsync -a --exclude .git --exclude .work --exclude replays /verif/ {vc}/")
+        os.makedirs(os.path.join(vc, "replays"), exist_ok=True)
+        env = dict(os.environ, OPTYX_REPO=wt)
+        for p in props:
+            rc, out = sh(f"./check {p} --tier quick", cwd=vc, env=env, timeout=3000)
+            lines = [l for l in out.splitlines() if l.startswith("VIOLATION") or l.startswith("[")]
+            res[p] = {"rc": rc, "violations": sum(1 for l in lines if l.startswith("VIOLATION")),
+                      "concrete": sum(1 for l in lines if l.startswith("VIOLATION") and "no-failing-input-found" not in l),
+                      "summary": lines[-1] if lines else out[-300:]}
+            first = next((l for l in lines if l.startswith("VIOLATION")), None)
+            if first:
+                rp = first.split("replay=")[1].split()[0]
+                try:
+                    res[p]["first_replay"] = open(rp if os.path.isabs(rp) else os.path.join(vc, rp)).read()[:1500]
+                except Exception as ex:
+                    res[p]["first_replay"] = repr(ex)
+            print(os.path.basename(d), p, {k: v for k, v in res[p].items() if k != "first_replay"}, flush=True)
+    finally:
+        sh(f"git -C {REPO} worktree remove --force {wt}")
+        shutil.rmtree(base, ignore_errors=True)
+        sh(f"git -C {REPO} worktree prune")
+    json.dump(res, open(os.path.join(d, "sandbox.json"), "w"), indent=1)
+    return res
+
+
 if __name__ == "__main__":
+    if sys.argv[1] == "sandbox":
+        sandbox(sys.argv[2], sys.argv[3:])
     if sys.argv[1] == "verify":
         sys.exit(0 if verify(sys.argv[2]) else 1)
     if sys.argv[1] == "detect":
